@@ -69,7 +69,7 @@ SPEC = dict(
     module="LMStripe.C04",
     harness_bin="stripe",
     ml_modules=["stripe_model"],
-    n={"quick": 600, "thorough": 7200},
+    n={"quick": 600, "thorough": 8700},
     search_n={"quick": 2500, "thorough": 12000},
     nontrivial=nontrivial,
     histogram=histogram,
